@@ -127,3 +127,40 @@ Theorem C09_whole_program_nonvacuous :
   CtlProgFacts.cmds_ok interp_new /\ CtlProgFacts.Rel [] interp_new.
 Proof. exact (conj CtlProgFacts.cmds_ok_new CtlProgFacts.Rel_new). Qed.
 Print Assumptions C09_whole_program_nonvacuous.
+
+(* ---- the checker's oracle and the model agree (Proofs/CtlProgFacts2.v) ----
+   cblock: the statement language above with the counting loop the checker generates
+   (`while c k body` = `set c 0; while {$c < k} {incr c; body}`); `to_prog` expands it into the
+   typed language, `to_term` encodes it as the term the checker's reference interpreter
+   (Check/C09.v `block9`) works on.  On every well-formed program (`wfc_block`: in particular a
+   loop body never assigns its own counter) the oracle computes the outcome and environment of the
+   reference run, and therefore what the interpreter computes from the rendered text.
+   CtlProgFacts2 also records what happens outside `wfc_block`: the oracle gives a loop a budget of
+   k+1 iterations and then stops silently, so on a body that resets its counter it differs from
+   model and implementation (the ex_bad examples); the generator never produces such a body. *)
+From Molt Require Proofs.CtlProgFacts2.
+From Molt Require Check.C09.
+
+Theorem C09_oracle_agrees_with_reference : forall n cp en en' o ve tr,
+  CtlProgFacts.run n en (CtlProgFacts2.to_prog cp) = (en', o) -> o <> CtlProgFacts.OFuel ->
+  CtlProgFacts2.wfc_block cp = true ->
+  CtlProgFacts2.env_i64 en -> CtlProgFacts2.venv_rel en ve ->
+  forall f, (CtlProgFacts2.dep_block cp <= f)%nat ->
+  exists ve' o9, C09.block9 [] f (CtlProgFacts2.mk9 ve tr) (CtlProgFacts2.to_term cp) [] = (CtlProgFacts2.mk9 ve' tr, o9) /\
+                 CtlProgFacts2.outrel o o9 /\ CtlProgFacts2.venv_rel en' ve' /\ CtlProgFacts2.env_i64 en'.
+Proof. exact CtlProgFacts2.checker_agrees. Qed.
+Print Assumptions C09_oracle_agrees_with_reference.
+
+Theorem C09_model_matches_oracle : forall n cp en en' o st ve tr,
+  CtlProgFacts.run n en (CtlProgFacts2.to_prog cp) = (en', o) -> o <> CtlProgFacts.OFuel ->
+  CtlProgFacts2.wfc_block cp = true ->
+  CtlProgFacts2.env_i64 en -> CtlProgFacts2.venv_rel en ve -> CtlProgFacts.Rel en st -> CtlProgFacts.cmds_ok st ->
+  (i_levels st + 1 + CtlProgFacts.depth_block (CtlProgFacts2.to_prog cp) <= i_limit st)%N ->
+  exists F, forall fuel f9, (F <= fuel)%nat -> (CtlProgFacts2.dep_block cp <= f9)%nat ->
+  exists st' r ve' o9,
+    eval std_uni fuel st (CtlProgFacts.render_block (CtlProgFacts2.to_prog cp)) = (st', r) /\
+    C09.block9 [] f9 (CtlProgFacts2.mk9 ve tr) (CtlProgFacts2.to_term cp) [] = (CtlProgFacts2.mk9 ve' tr, o9) /\
+    CtlProgFacts2.res9 (i_levels st =? 0)%N o9 r /\
+    CtlProgFacts.Rel en' st' /\ CtlProgFacts2.venv_rel en' ve' /\ CtlProgFacts.same_ctl st st'.
+Proof. exact CtlProgFacts2.model_matches_oracle. Qed.
+Print Assumptions C09_model_matches_oracle.
